@@ -38,6 +38,23 @@ def run(ck):
     n = 6 if ck.quick else 7
     ck.tlc_mc("MC_Subscriptions", ck.cfg_with("MC_Subscriptions.cfg", {"N": n}),
               required_actions=["InitBroadcast", "AnnounceInsert"], timeout=3000)
+    # spec -> impl: TLC walks of the model (simulation) performed on the real component
+    walks = 120 if ck.quick else 3000
+    beh, _ = ck.tlc_gen("Gen_Subscriptions", ck.cfg_with("Gen_Subscriptions.cfg"), "behaviours.ndjson",
+                        simulate=(walks, 12), dedupe=True, count_stats=False, timeout=1200)
+    rtrace = f"{ck.work}/replay_trace.ndjson"
+    s0 = ck.harness(hb, ["replay", "subs", beh, "--out", rtrace], "replay")
+    ck.cov["evaluations"] += s0["props"]["C37"]["evaluations"]
+    ck.cov["distinct_nontrivial"] += s0["props"]["C37"]["distinct_nontrivial"]
+    ck.cov["samples"] += s0["props"]["C37"]["samples"][:2]
+
+    def on_reject0(rej, run_lines, idx):
+        ev = rej["event"] if isinstance(rej["event"], dict) else {}
+        ck.violation({"kind": "trace-reject", "event": ev.get("name"), "invariant": rej.get("invariant"), "dir": "spec->impl"},
+                     f"TLC-generated operation list: event {idx} breaks the subscription property "
+                     f"({rej.get('invariant')}): {json.dumps(ev)[:300]}", {"trace": run_lines[:idx], "reject": rej})
+
+    ck.validate_trace_runs("Trace_Subscriptions", ck.cfg_with("Trace_Subscriptions.cfg"), rtrace, on_reject0)
     trace = f"{ck.work}/trace.ndjson"
     runs, nn = (40, 120) if ck.quick else (400, 300)
     s = ck.harness(hb, ["record", "subs", "--seed", ck.seed, "--out", trace, "--runs", runs, "--n", nn], "record")
